@@ -4,7 +4,7 @@
    lists of byte strings in PYTHON order (top last) — reversed here, the Coq side is top first. *)
 From Coq Require Import String.
 From V Require Import Base.Prelude Base.Ints Base.Disp Model.Script Model.Op Model.Interp
-  Spec.Consensus.
+  Model.OpMode Model.Timelock Model.OpNum Spec.Consensus Spec.ConsensusLimits Spec.Timelocks.
 Open Scope string_scope.
 Open Scope Z_scope.
 
@@ -25,6 +25,19 @@ Definition voutcome (o : outcome) : val :=
   match o with OTrue => VI 1 | OFalse => VI 0 | OSpecial => VI 2 end.
 Definition vverdict (v : verdict) : val :=
   match v with Accept => VI 1 | Reject => VI 0 | OutOfScope => VI 2 end.
+
+(* ---- failure-mode model (Model/OpMode.v): 0 = returns False, 11 KeyError, 12 IndexError, 13 ValueError,
+   14 = signature op code (not modelled) *)
+Definition mtable (H : oracle) : Z -> option mopfn :=
+  m_functions (o_ripemd160 H) (o_sha1 H) (o_sha256 H) (o_hash160 H) (o_hash256 H).
+Definition vexn (e : exn) : val :=
+  match e with EKey => VI 11 | EIndex => VI 12 | EValue => VI 13 | ESigOp => VI 14 end.
+Definition vxoutcome (x : xoutcome) : val :=
+  match x with XTrue => VI 1 | XFalse => VI 0 | XSpecial => VI 2 | XRaise e => vexn e end.
+Definition vopt (o : option Z) : val := match o with Some z => VI z | None => VL [] end.
+Definition vmeaning (m : seq_meaning) : val :=
+  match m with NoRelativeLock => VL [VI 0] | Blocks k => VL [VI 1; VI k] | Seconds k => VL [VI 2; VI k] end.
+Definition u32 (n : Z) : bool := (0 <=? n) && (n <=? 4294967295).
 
 Definition dispatch (H : oracle) (fn : list Z) (args : list val) : val :=
   if fn_is "encode_num" fn then
@@ -98,6 +111,92 @@ Definition dispatch (H : oracle) (fn : list Z) (args : list val) : val :=
     match args with
     | [VB e] => VL [VI (sn_value e); VB (sn_serialize (sn_value e)); vbool (cast_to_bool e);
                     vbool (sn_minimal e)]
+    | _ => bad_args end
+  (* ---- failure mode *)
+  else if fn_is "op_mode" fn then
+    match args with
+    | [VI o; VL st; VL alt; VI lt; VI sq; VI ver] =>
+        match vals_bytes st, vals_bytes alt with
+        | Some s, Some a =>
+            let c := {| t_locktime := lt; t_sequence := sq; t_version := ver |} in
+            match m_exec_op (mtable H) c o [] (rev s) (rev a) with
+            | MOk (_, s', a') => VL [vstack s'; vstack a']
+            | MFalse => VI 0
+            | MRaise e => vexn e
+            end
+        | _, _ => bad_args
+        end
+    | _ => bad_args end
+  else if fn_is "op_if_mode" fn then
+    match args with
+    | [VI neg; VL st; VL items] =>
+        match vals_bytes st, vals_cmds items with
+        | Some s, Some its =>
+            match m_if_gen (negb (neg =? 0)) (rev s) its with
+            | MOk (s', its') => VL [vstack s'; VL (map vcmd its')]
+            | MFalse => VI 0
+            | MRaise e => vexn e
+            end
+        | _, _ => bad_args
+        end
+    | _ => bad_args end
+  else if fn_is "evaluate_mode" fn then
+    match args with
+    | [VL cmds; VI lt; VI sq; VI ver; VI ap; VI aw] =>
+        match vals_cmds cmds with
+        | Some cs =>
+            vxoutcome (m_evaluate (mtable H) {| t_locktime := lt; t_sequence := sq; t_version := ver |}
+                         (negb (ap =? 0)) (negb (aw =? 0)) cs)
+        | None => bad_args
+        end
+    | _ => bad_args end
+  (* ---- consensus with its resource limits; second component: the static bounds hold *)
+  else if fn_is "spec_eval_lim" fn then
+    match args with
+    | [VL cmds; VI lt; VI sq; VI ver; VI ap; VI aw] =>
+        match vals_cmds cmds with
+        | Some cs =>
+            let c := {| c_locktime := lt; c_sequence := sq; c_version := ver |} in
+            VL [ (if negb (ap =? 0) && mentions_p2sh cs then VI 2
+                  else vverdict (eval_script_lim (o_ripemd160 H) (o_sha1 H) (o_sha256 H) c (negb (aw =? 0)) cs));
+                 vbool (within_limits cs) ]
+        | None => bad_args
+        end
+    | _ => bad_args end
+  (* ---- the classes of buidl/timelock.py *)
+  else if fn_is "timelock" fn then
+    match args with
+    | [VI a; VI b] =>
+        VL [ vres_i (lt_new a); vres_i (sq_new a);
+             if u32 a && u32 b then
+               VL [ vres_b (lt_serialize a); vres_b (sq_serialize a);
+                    vbool (lt_comparable a b); vres_bool (lt_lt a b); vbool (lt_lt_int a b);
+                    vopt (lt_block_height a); vopt (lt_mtp a);
+                    vbool (sq_relative a); vbool (sq_relative_time a); vbool (sq_relative_block a);
+                    vbool (sq_is_max a); vbool (sq_is_rbf_able a);
+                    vopt (sq_relative_blocks a); vopt (sq_relative_seconds a);
+                    vbool (sq_comparable a b); vres_bool (sq_lt a b); vbool (sq_lt_int a b) ]
+             else VL [] ]
+    | _ => bad_args end
+  else if fn_is "timelock_ctor" fn then
+    match args with
+    | [VI n] => VL [ vres_i (sq_from_relative_time n); vres_i (sq_from_relative_blocks n);
+                     vres_i lt_default; vres_i sq_default ]
+    | _ => bad_args end
+  else if fn_is "timelock_parse" fn then
+    match args with
+    | [VB s] => VL [ vres_i (lt_parse s); vres_i (sq_parse s) ]
+    | _ => bad_args end
+  else if fn_is "op_num" fn then
+    match args with
+    | [VI n] => VL [ vres_i (number_to_op_code n); vres_b (number_to_op_code_byte n);
+                     vres_i (op_code_to_number n); vres vcmd (encode_minimal_num n) ]
+    | _ => bad_args end
+  else if fn_is "spec_bip68" fn then
+    match args with
+    | [VI a; VI b] =>
+        VL [ vmeaning (bip68 a); vbool (bip112_comparable a b); vbool (bip68_value a <? bip68_value b);
+             vbool (same_kind (locktime_kind a) (locktime_kind b)) ]
     | _ => bad_args end
   else if fn_is "spec_serialize" fn then
     match args with [VI n] => VB (sn_serialize n) | _ => bad_args end
